@@ -23,7 +23,7 @@ PROP = "C20"
 BATCH = 400
 SHRINK_EVALS = 3000
 FUNCS_1D = ["nansum", "nanmean", "nanmin", "nanmax", "nanvar", "nanstd", "count"]
-DT_QUICK = ["float64", "int64", "int32"]
+DT_QUICK = ["float64", "int64", "float32", "int32"]
 DT_THOROUGH = ["float64", "int64", "float32", "int32"]
 FUNCS_2D = ["nansum", "nanmin", "nanmax"]
 HELPERS = ["nb_dot", "bools_to_categorical", "pretty_cut"]
@@ -72,7 +72,7 @@ def class_weights(tier):
 
 
 def n_runs(tier):
-    return 90_000 if tier == "quick" else 6_000_000
+    return 120_000 if tier == "quick" else 6_000_000
 
 
 def _letters(s: Choices, n, is_float, arb):
